@@ -9,8 +9,7 @@ simulation; the compare ladder of `switch`),
 Lemmas/C03FunLabels.lean (freshness of all labels of a function), Lemmas/C03FunFuel.lean (the fuel is irrelevant), Lemmas/C03FunExample.lean (the function of the non-vacuity
 examples).
 -/
-import ChibiVerif.Lemmas.C03FunSwitch
-import ChibiVerif.Lemmas.C03FunLabels
+import ChibiVerif.Lemmas.C03FunWhole
 import ChibiVerif.Lemmas.C03FunExample
 import ChibiVerif.Lemmas.C03FunFuel
 
@@ -47,15 +46,28 @@ theorem C03_function_fuel_irrelevant (R : ITy) (s : FStmt) (σ σ1 σ2 : Env) (n
 example : execF .i64 40 exBody exEnv = .done (.ret 7) ⟨[.i8, .u32], [0, 15]⟩ ∧
     execF .i64 25 exBody exEnv = .done (.ret 7) ⟨[.i8, .u32], [0, 15]⟩ := ⟨rfl, rfl⟩
 
+/-- the statement without the restriction to conflict-free expressions: every function `compileFn` assembles, every
+    terminating execution of the abstract machine.  NOT expected to hold: an expression with unsequenced conflicting accesses
+    (`(v0 = 1) + v0`) has undefined behaviour in C11 (6.5p2); `evalE` fixes left-to-right evaluation for it while `gen_expr`
+    generates the right-hand operand first (C01, `noConflict`).  The theorem below is this statement under `noConflictF body`. -/
+def C03_function_correct_Statement : Prop :=
+  ∀ (tys : List ITy) (off toff : Nat → Int) (R : ITy) (c0 u0 : Nat) (body : FStmt) (prog : List FI) (K c1 u1 : Nat),
+    compileFn tys off toff R c0 u0 body = some (prog, K, c1, u1) →
+    ∀ (σ σ' : Env), σ.tys = tys → ∀ (fuel : Nat) (o : Out), execF R fuel body σ = .done o σ' →
+    ∀ (m : State), FrameX σ off toff K (depthF body) m →
+      ∃ fuel' m', runF fuel' prog 0 m = some m' ∧ (∀ v, o = .ret v → Represents R (m'.get .rax) v) ∧
+        m'.get .rsp = m.get .rsp ∧ m'.get .rbp = m.get .rbp ∧ FrameX σ' off toff K (depthF body) m'
+
 /-- **whole-function correctness for the integer fragment** (`_partial`: the fragment is the decidable predicate
     "`compileFn` assembles the body and every full expression is conflict-free").
 
     A function body built from expression statements, compound statements, `if`/`else`, `while`, `for (init; c; inc)`,
-    `do … while`, `switch` with `case` / `default` labels (fall-through, `default` anywhere, `break`, constants negative or above
-    32 bits, controlling expression of any of the nine integer types), `break`, `continue` and `return e` over the expressions `E` of C01 (literals, local integer variables of
+    `do … while`, `switch` with `case` / `default` labels and GNU case ranges (fall-through, `default` anywhere, `break`,
+    constants negative or above 32 bits, controlling expression of any of the nine integer types), `break`, `continue` and `return e` over the expressions `E` of C01 (literals, local integer variables of
     the nine integer types, casts, unary and binary operators, `&&` `||` `?:` `,`, `=`, the ten `op=`, `++` `--`), compiled as
     chibicc compiles it (`compileFn`: `gen_stmt`'s skeleton with every expression hole filled by `gen_expr`'s code `compileJ`,
-    truth tests `cmp_zero; je/jne`, the compare ladder `cmp $c, %eax|%rax; je` of a `switch` in `case_next` order, one `count()`
+    truth tests `cmp_zero; je/jne`, the compare ladder of a `switch` in `case_next` order (`cmp $c, %eax|%rax; je`, for a range the unsigned
+    distance test `sub $lo; cmp $(hi-lo); jbe`), one `count()`
     for statements and expressions, `new_unique_name()` for break / continue / case labels, the hidden temporaries numbered through the function), runs on the label machine from the first line of the body
     (`%rsp`, `%rbp` and the frame as the prologue leaves them: `FrameX`, `depthF body` free stack slots) to the line after
     `.L.return.f:` — for EVERY such function, EVERY initial store `σ` and EVERY outcome of the C11 abstract machine `execF`
@@ -71,7 +83,7 @@ example : execF .i64 40 exBody exEnv = .done (.ret 7) ⟨[.i8, .u32], [0, 15]⟩
     a loop's jump back re-enters the same code with less fuel (for `for`: inner induction on the fuel, the first clause
     having been executed once).
 
-    NOT covered: `goto` / labels, GNU case ranges, a `switch` whose body is not a list of statements each labelled at most once
+    NOT covered: `goto` / labels, a `switch` whose body is not a list of statements each labelled at most once
     at its head (`switchOK`: the abstract machine answers `unsupported`, e.g. Duff's device — the CODE model `compileF` covers
     those too and is tied by text), a declaration as first clause of a `for`, declarations with initializers, calls, parameters and the prologue / epilogue (`push %rbp … ret`), non-integer types, pointers /
     arrays / structs (C01's `compileA` fragment), globals; expressions with unsequenced conflicting accesses (C11 6.5p2: UB);
@@ -83,39 +95,37 @@ theorem C03_function_correct_partial (tys : List ITy) (off toff : Nat → Int) (
     (m : State) (hf : FrameX σ off toff K (depthF body) m) :
     ∃ fuel' m', runF fuel' prog 0 m = some m' ∧ (∀ v, o = .ret v → Represents R (m'.get .rax) v) ∧
       m'.get .rsp = m.get .rsp ∧ m'.get .rbp = m.get .rbp ∧ FrameX σ' off toff K (depthF body) m' := by
-  have hfresh := (compileFn_fresh tys off toff R c0 u0 body prog K c1 u1 hc).1
-  simp only [compileFn, Option.map_eq_some_iff, Prod.mk.injEq] at hc
-  obtain ⟨⟨code, K', c1', u1'⟩, hcF, rfl, hK', _, _⟩ := hc
-  have hK' : K' = K := hK'
-  subst hK'
-  let g : Cfg := { tys := tys, off := off, toff := toff, K := K', R := R, C := bound (code ++ [FI.lbl (.s .ret)]),
-                   q := (code ++ [FI.lbl (.s .ret)]).map (enc (bound (code ++ [FI.lbl (.s .ret)]))), retPos := code.length,
-                   sp := m.get .rsp, bp := m.get .rbp, B := (m.get .rsp).toNat, D := depthF body }
-  have ok : g.OK := by
-    refine ⟨nodup_enc _ hfresh, ?_, ?_, hf.1, Nat.le_refl _⟩
-    · show ((code ++ [FI.lbl (.s .ret)]).map (enc _))[code.length]? = _
-      simp [enc, g]
-    · have := hf.2.1; rw [hσ] at this; exact this
-  have hm : MInv g σ m := ⟨hσ, rfl, rfl, hf.2.2⟩
-  have hat : At g.q 0 (code.map (enc g.C)) := by
-    have := At_mid [] (code.map (enc g.C)) ([FI.lbl (.s .ret)].map (enc g.C))
-    simpa [g] using this
-  have hret : g.q[code.length]? = some (.lbl (encL g.C (.s .ret))) := ok.ret
-  obtain ⟨m', r, hm', hr⟩ := sim g ok fuel body σ o σ' hx ⟨none, none, false⟩ 0 c0 u0 code K' c1' u1' hcF (Nat.le_refl _) hnc (Nat.le_refl _) 0
-    code.length code.length hat ⟨fun b h => by simp at h, fun ct h => by simp at h⟩ m hm
-  have htgt : tgt g o (0 + code.length) code.length code.length = code.length := by cases o <;> simp [tgt, g]
-  rw [htgt] at r
-  obtain ⟨fuel', hrun⟩ := (r.trans (lbl_step hret m')).runJ (by simp [g])
-  refine ⟨fuel', m', ?_, hr, hm'.2.1, hm'.2.2.1, ?_⟩
-  · rw [runF_eq_runJ]; exact hrun
-  · refine ⟨by rw [hm'.2.1]; exact hf.1, ?_, hm'.2.2.2⟩
-    rw [hm'.1, hm'.2.1, hm'.2.2.1]
-    have := hf.2.1; rw [hσ] at this; exact this
+  obtain ⟨fuel', m', h1, h2, h3, h4, h5, _⟩ := fun_core tys off toff R c0 u0 body prog K c1 u1 hc hnc σ σ' hσ fuel o hx m hf
+    (fun _ => False) (fun _ h => h.elim)
+  exact ⟨fuel', m', h1, h2, h3, h4, h5⟩
+
+/-- **the function does not touch the caller's part of the stack**: with the frame chibicc lays out (`layoutOK`: variables and
+    hidden temporaries inside `[%rbp - N, %rbp)`, what the check validates on chibicc's real offsets; `%rbp = %rsp + N` as the
+    prologue `push %rbp; mov %rsp, %rbp; sub $N, %rsp` leaves them) every byte at or above `%rbp` — the saved `%rbp`, the
+    return address, the caller's frame — holds after the run what it held before (so the epilogue `mov %rbp, %rsp; pop %rbp;
+    ret` restores the caller's `%rsp`, `%rbp` and returns to the caller), besides the conclusions of
+    `C03_function_correct_partial`. -/
+theorem C03_function_frame_preserved (tys : List ITy) (off toff : Nat → Int) (R : ITy) (c0 u0 : Nat) (body : FStmt)
+    (prog : List FI) (K c1 u1 : Nat)
+    (hc : compileFn tys off toff R c0 u0 body = some (prog, K, c1, u1)) (hnc : noConflictF body = true)
+    (σ σ' : Env) (hσ : σ.tys = tys) (fuel : Nat) (o : Out) (hx : execF R fuel body σ = .done o σ')
+    (m : State) (hf : FrameX σ off toff K (depthF body) m)
+    (N : Int) (hN : 0 ≤ N) (hlay : layoutOK tys off toff K N = true)
+    (hbp : ((m.get .rbp).toNat : Int) = (m.get .rsp).toNat + N) :
+    ∃ fuel' m', runF fuel' prog 0 m = some m' ∧ (∀ v, o = .ret v → Represents R (m'.get .rax) v) ∧
+      m'.get .rsp = m.get .rsp ∧ m'.get .rbp = m.get .rbp ∧ FrameX σ' off toff K (depthF body) m' ∧
+      ∀ a : BitVec 64, (m.get .rbp).toNat ≤ a.toNat → m'.mem a = m.mem a :=
+  fun_core tys off toff R c0 u0 body prog K c1 u1 hc hnc σ σ' hσ fuel o hx m hf (fun a => (m.get .rbp).toNat ≤ a.toNat)
+    (fun a ha => keep_above_bp tys off toff K N hN hlay (m.get .rbp) (m.get .rsp) hbp a ha)
+
+/-- non-vacuity of the layout hypotheses: the frame of the examples (`N` = 0x1000) -/
+example : layoutOK exEnv.tys exXOff exXToff 6 0x1000 = true ∧
+    ((exXState.get .rbp).toNat : Int) = (exXState.get .rsp).toNat + 0x1000 := ⟨by decide, by decide⟩
 
 /-- non-vacuity: `exBody` with `signed char v0 = -3`, `unsigned v1 = 7` in that frame: it compiles (six hidden temporaries,
     `count()` 1 … 7, unique names 2 … 12), is conflict-free, and the abstract machine returns 7 (`long`) with `v0 = 0`, `v1 = 15`
     after three iterations of the `while` (one ended by `continue`), one of the `do`, two of the `for` (left by `break`), and the
-    `switch` entered at `case 5` (after `default`, before a `break`). -/
+    `switch` entered at `case 5 ... 9` (after `default`, before a `break`). -/
 example : ∃ prog, compileFn exEnv.tys exXOff exXToff .i64 1 2 exBody = some (prog, 6, 8, 13) ∧ noConflictF exBody = true ∧
     execF .i64 40 exBody exEnv = .done (.ret 7) ⟨[.i8, .u32], [0, 15]⟩ ∧
     FrameX exEnv exXOff exXToff 6 (depthF exBody) exXState :=
